@@ -614,15 +614,9 @@ def _analyse_exec(run: Any, ea: ExecAnalysis, retire_probe: bool, aborted: bool,
             if unfinished > mc:
                 V.append(viol("maxconc", f"{unfinished} pooled nodes unfinished at submission of {nid}, max_concurrency={mc}",
                               op=opkey, tok=tok, seq=seq))
-            if failure_observed_at is not None and kind == "thread":
-                V.append(viol("dispatch_after_failure", f"{nid} submitted after the scheduler observed a failure", op=opkey, tok=tok, seq=seq))
-            if kind == "thread":
-                episode_kinds = None
-                check_prio(nid, seq)
-                dispatched.add(nid)
-            elif nid not in dispatched:
-                # async-thread node whose task creation could not be attributed (or that is handed to the pool without a task):
-                # the submission is the dispatch decision
+            if nid not in dispatched:
+                # the submission is the dispatch decision - unless the decision was already seen as the creation of the task that
+                # carries the node to the pool (async-thread nodes in tawazi; any pooled node in a scheduler that awaits them all)
                 episode_kinds = None
                 if failure_observed_at is not None:
                     V.append(viol("dispatch_after_failure", f"{nid} submitted after the scheduler observed a failure", op=opkey, tok=tok, seq=seq))
